@@ -117,7 +117,7 @@ Definition run_sharded_body (f : gfunc) (boundary : Z) (e : entry) : option bool
   match first_range 10 (gf_body f) with
   | Some (_, _, body) =>
       exec_list de_prims no_fcmp no_loop (fun _ s => Some (deletes s)) (fun _ => None) 40 body
-                (mkSt [("beforeTS", VZ boundary); ("v.E", VZ (eE e)); ("h", VZ 0); ("b.data", VPtr true "data")] [] [])
+                (mkSt [("beforeTS", VZ boundary); ("v.E", VZ (eE e)); ("h", VZ 0); ("b.data", VPtr true "data")] [] [] [])
                 (fun s => Some (deletes s))
   | None => None
   end.
@@ -150,7 +150,7 @@ Definition run_sync_body (boundary : Z) (e : entry) : option (bool * bool) :=
   | Some body =>
       exec_list de_prims no_fcmp no_loop
                 (fun vs s => match vs with [VB continue] => Some (deletes s, continue) | _ => None end) (fun _ => None) 40 body
-                (mkSt [("beforeTS", VZ boundary); ("value", VPtr true "entry"); ("key", VPtr true "key"); ("cacheEntry.E", VZ (eE e))] [] [])
+                (mkSt [("beforeTS", VZ boundary); ("value", VPtr true "entry"); ("key", VPtr true "key"); ("cacheEntry.E", VZ (eE e))] [] [] [])
                 (fun _ => None)
   | None => None
   end.
